@@ -1,7 +1,7 @@
 import pyparsing as pp
 
 from .common import _
-from .common import _c
+from .common import comment
 from .common import c
 from .common import n
 from .common import note
@@ -96,7 +96,11 @@ column_settings_with_properties.set_parse_action(parse_column_settings)
 
 constraint = pp.CaselessLiteral("unique") | pp.CaselessLiteral("pk")
 
-table_column = _c + (
+# comments directly above the column, grouped so that all of them stay together when the
+# column is a named part of a table body
+comment_above = pp.Group((pp.Suppress('\n') | comment)[...])('comment_before')
+
+table_column = comment_above + (
     name('name')
     + column_type('type')
     + constraint[...]('constraints') + c
@@ -104,7 +108,7 @@ table_column = _c + (
 ) + n
 
 
-table_column_with_properties = _c + (
+table_column_with_properties = comment_above + (
     name('name')
     + column_type('type')
     + constraint[...]('constraints') + c
@@ -133,9 +137,8 @@ def parse_column(s, loc, tok):
     # comments after column definition have priority
     if 'comment' in tok:
         init_dict['comment'] = tok['comment'][0]
-    if 'comment' not in init_dict and 'comment_before' in tok:
-        comment = '\n'.join(c[0] for c in tok['comment_before'])
-        init_dict['comment'] = comment
+    if 'comment' not in init_dict and tok.get('comment_before'):
+        init_dict['comment'] = '\n'.join(tok['comment_before'])
 
     return ColumnBlueprint(**init_dict)
 
